@@ -567,17 +567,13 @@ def canonical_path_is_canonical(ctx):
     ctx.floor(n, 1, "Ok results of canonical_path", name)
 
 
-def lexer_split_invariance(ctx):
-    """C11-R7: a query passed as several shell words is lexed like the same words joined by single blanks.  The lexer
-    (Lexer::new + next_lexem) is read by the finite interpreter on a small family of inputs, each once as one argument and
-    once split at every blank - also at blanks inside quoted literals of the three styles -, and the two lexem sequences
-    are compared with each other (no table of expected lexems is involved)"""
+def lexer_by_interpretation(ctx):
+    """-> lex(parts): the lexem list Lexer::new(parts) + next_lexem yield, read off the source by the finite interpreter (the static
+    regexes of the lexer are matched with Python's re on their extracted literals)"""
     import interp
-    import itertools
     new, nx = "lexer::Lexer::new", "lexer::Lexer::next_lexem"
     nh, xh = ctx.anchor_hir(new), ctx.anchor_hir(nx)
     nps, xps = ctx.prog.fns[new]["params"], ctx.prog.fns[nx]["params"]
-
     import re as _re
     statics = {}
     for name_, f_ in ctx.prog.fns.items():
@@ -626,6 +622,21 @@ def lexer_split_invariance(ctx):
                 return out
             out.append(r.args[0] if isinstance(r, interp.V) and r.args else r)
         raise interp.Undecided("the lexer does not come to an end")
+    return lex
+
+
+def lexer_split_invariance(ctx):
+    """C11-R7: a query passed as several shell words is lexed like the same words joined by single blanks.  The lexer
+    (Lexer::new + next_lexem) is read by the finite interpreter on a small family of inputs, each once as one argument and
+    once split at every blank - also at blanks inside quoted literals of the three styles -, and the two lexem sequences
+    are compared with each other (no table of expected lexems is involved)"""
+    import interp
+    import itertools
+    new, nx = "lexer::Lexer::new", "lexer::Lexer::next_lexem"
+    nh, xh = ctx.anchor_hir(new), ctx.anchor_hir(nx)
+    nps, xps = ctx.prog.fns[new]["params"], ctx.prog.fns[nx]["params"]
+
+    lex = lexer_by_interpretation(ctx)
     queries = ["name, size from /tmp/a b where name = 'my notes.txt'",
                'select name from . where name like "a b  c" and size gt 3',
                "name from . where name eq `x y` or {size + 1 gt 2}",
@@ -925,3 +936,32 @@ def where_tree_reaches_query(ctx):
     ctx.covered("WHERE trees (3 conditions x AND/OR x bracketing x cheap/expensive) followed from parse_where into the Query: same truth table", n,
                 distinct_keys=["expr"], exhaustive=True)
     ctx.floor(n, 64, "WHERE trees followed into the query", PARSE)
+
+
+def number_minus_is_arithmetic(ctx):
+    """X-NUMMINUS: a minus glued to a number is the arithmetic operator (`1024-size`, `size*1500-1`): the lexer keeps a `-` inside a
+    token only for what starts like a date, a four-digit year of the supported range 1970..2999 (`2023-12-11`); any other number
+    followed by `-` is cut into number, operator, operand.  Lexer::new + next_lexem evaluated (finite interpreter)"""
+    import interp
+    lex = lexer_by_interpretation(ctx)
+    nx = "lexer::Lexer::next_lexem"
+    n = 0
+    for text, want_split in (("1024-size", True), ("999-size", True), ("1500-1", True), ("1969-12", True), ("3000-size", True), ("10000-size", True), ("12-size", True),
+                             ("size*1500-1", True), ("2023-12-11", False), ("1970-01-01", False), ("2999-12", False), ("2023-1-5", False), ("2023-1-05", False), ("2023-01-5", False)):
+        q = "select %s from ." % text
+        try:
+            ls = lex([q])
+        except interp.Undecided as e:
+            ctx.obligation(False)
+            ctx.violation("lexer/number-minus/unreadable", ctx.where(nx), "cannot evaluate the lexer on `%s`: %s" % (q, e))
+            return
+        n += 1
+        minus = [l for l in ls if isinstance(l, interp.V) and l.name == "Lexem::ArithmeticOperator" and l.args and l.args[0] == "-"]
+        ok = bool(minus) == want_split
+        ctx.obligation(ok)
+        if not ok:
+            ctx.violation("lexer/number-minus/%s" % ("date" if not want_split else "number"), ctx.where(nx),
+                          "`%s` is lexed as %s: %s" % (text, ls[1:-2], "a number followed by `-` is number, minus, operand (only a year 1970..2999 starts a date literal)"
+                                                       if want_split else "an unquoted date literal must stay one token"))
+    ctx.covered("numbers and dates followed by `-` lexed by interpretation (operator vs. date literal)", n, distinct_keys=["numbers", "dates"], exhaustive=False)
+    ctx.floor(n, 14, "number-minus spellings lexed", nx)
